@@ -22,7 +22,7 @@ func TestC02(t *testing.T) {
 	r := report.Start("C02")
 	defer r.Finish()
 	// (a) precompile topologies: groups of cases share one chain
-	ngroups := r.Pick(64, 3200)
+	ngroups := r.Cases(64, 3200)
 	for g := 0; g < ngroups; g++ {
 		gid := fmt.Sprintf("pc/%d", g)
 		if !r.Want(gid, g) {
@@ -31,7 +31,7 @@ func TestC02(t *testing.T) {
 		c02PrecompileGroup(r, gid)
 	}
 	// (b) precompile-free programs against the geth reference (value flows between contracts)
-	nprog := r.Pick(64, 3200)
+	nprog := r.Cases(64, 3200)
 	for g := 0; g < nprog; g++ {
 		gid := fmt.Sprintf("prog/%d", g)
 		if !r.Want(gid, g) {
@@ -42,7 +42,7 @@ func TestC02(t *testing.T) {
 	// (c) a precompile credit inside a frame that fails, to an account the EVM first loads there and
 	// that becomes dirty later in the transaction: nothing may be minted (shared with C05)
 	idx := 0
-	for rep := 0; rep < r.Pick(6, 120); rep++ {
+	for rep := 0; rep < r.Cases(6, 120); rep++ {
 		for _, endKind := range []string{"revert", "invalid", "out-of-gas"} {
 			id := fmt.Sprintf("lateload/%s/%d", endKind, rep)
 			idx++
